@@ -233,14 +233,15 @@ def _yaml_scalar(v):
     return _json_tok(v)
 
 
-def to_yaml(docs, flow=False):
+def to_yaml(docs, flow=False, lead=False):
+    """lead: begin the file with the document start marker, as most YAML in the wild does"""
     parts = []
     for d in docs:
         if flow:
             parts.append(_json_tok(d) + "\n")
         else:
             parts.append("\n".join(_yaml_block(d, 0)) + "\n")
-    return "---\n".join(parts)
+    return ("---\n" if lead else "") + "---\n".join(parts)
 
 
 def _toml_val(v):
@@ -279,7 +280,7 @@ def emit(fmt, docs, rng=None):
     if fmt in ("json", "jsonl"):
         return to_json(docs)
     if fmt in ("yaml", "yml"):
-        return to_yaml(docs, flow=bool(rng and rng.chance(1, 3)))
+        return to_yaml(docs, flow=bool(rng and rng.chance(1, 3)), lead=bool(rng and rng.chance(1, 3)))
     if fmt == "toml":
         return to_toml(docs)
     raise ValueError(fmt)
